@@ -4,7 +4,7 @@
   FindPathTo, FindFarthestNode, DeleteBranch; chain_diff.go: MorePOW; block_check.go: the tree-related
   part of PreCheckBlock; unspent_db.go: CommitBlockTxs / UndoBlockTxs around the undo files).
   Core-only, executable; mirrors the code as written (first child wins ties in FindFarthestNode, undo
-  files are keyed by height only, the leaf's own difficulty is not counted by FindFarthestNode, …).
+  files are keyed by height only, …).
 
   Work: the Go code sums `float64` `btc.GetDifficulty(bits)`.  The model uses the exact rational
   `0xffff·256^(29−e)/mantissa` (`Q` = numerator/denominator over Nat, compared by cross-multiplication).
@@ -99,12 +99,13 @@ def morePOWAux (c : Chain) : Nat → Node → Node → Q → Q → Bool
 def morePOW (c : Chain) (b1 b2 : Node) : Bool :=
   morePOWAux c (b1.height + b2.height + 2) b1 b2 Q.zero Q.zero
 
-/-- `n.FindFarthestNode()`: (leaf, Σ difficulty of the nodes above the leaf, from `n` down) -/
+/-- `n.FindFarthestNode()`: (leaf, Σ difficulty of the nodes from `n` down to and including the leaf — since fix
+    dee8064a the leaf's own difficulty counts) -/
 def farthest (c : Chain) : Nat → Node → Nat × Q
-  | 0, n => (n.id, Q.zero)
+  | 0, n => (n.id, difficulty n.bits)
   | f + 1, n =>
     match n.childs.filterMap (getNode c) with
-    | [] => (n.id, Q.zero)
+    | [] => (n.id, difficulty n.bits)
     | c0 :: rest =>
       let first := farthest c f c0
       let best := rest.foldl (fun acc ch =>
